@@ -385,6 +385,21 @@ func verifControlDeadCtxStore[T any](k, v any) func(Observable[T]) Observable[T]
 		})
 	}
 }
+
+func verifControlSlotCtxArg[T any](predicate func(ctx context.Context, item T) bool) func(Observable[T]) Observable[T] {
+	return func(source Observable[T]) Observable[T] {
+		return NewUnsafeObservableWithContext(func(subscriberCtx context.Context, destination Observer[T]) Teardown {
+			sub := source.SubscribeWithContext(subscriberCtx, NewObserverWithContext(
+				func(ctx context.Context, value T) {
+					if predicate(subscriberCtx, value) {
+						destination.NextWithContext(ctx, value)
+					}
+				},
+				destination.ErrorWithContext, destination.CompleteWithContext))
+			return sub.Unsubscribe
+		})
+	}
+}
 `
 
 func C09() *check.Property {
@@ -393,7 +408,7 @@ func C09() *check.Property {
 		Title:    "Context flows from Subscribe through every callback and is never nil",
 		Patterns: cat(CorePatterns, PluginPkgs, []string{PromPkg}, RatePkgs),
 		Scope:    []string{ro},
-		Rules:    []check.Rule{ruleCtxProvenance(), ruleNoFreshContext(), ruleCtxPairing(), ruleDeadContextStore()},
+		Rules:    []check.Rule{ruleCtxProvenance(), ruleNoFreshContext(), ruleCtxPairing(), ruleDeadContextStore(), ruleSlotCtxArgument(), ruleCallbackCtxUsed()},
 		Explanation: "Static def-use classification of every context operand. Sinks: the context argument of each upstream SubscribeWithContext and of each Next/Error/Complete notification in every subscribe closure " +
 			"(through inlined helpers and local closures), plus the same calls in the subjects, the subscriber and the connectable observable. Each operand is traced through assignments, tuple fields (lo.T2), slices/channels of tuples, " +
 			"atomic.Value, struct fields, closure and helper parameters to its origins; allowed origins are the subscriber context, the slot context, user-callback results and context.With* of those; Background/TODO/nil and " +
@@ -831,6 +846,133 @@ func mentionsVar(info *types.Info, n ast.Node, v *types.Var) bool {
 		return !found
 	})
 	return found
+}
+
+// SLOT-CTX-ARGUMENT: inside a source callback the context to pass on is the one the callback received.
+func ruleSlotCtxArgument() check.Rule {
+	return check.Rule{
+		Name:        "SLOT-CTX-ARGUMENT",
+		Doc:         "inside the notification callbacks of an upstream observer (and the local closures they call with their own context), the subscription-time context of the operator is never handed to a user callback, a local closure, a helper or a notification as its context argument - only a new upstream subscription may be given it: every such argument must be (derived from) the context the callback received, otherwise values attached upstream per notification are invisible to the predicate / projection / downstream",
+		NeedControl: true,
+		Run: func(c *check.Ctx) {
+			m := c.M
+			for _, sc := range m.SCs {
+				if sc.Ctx0 == nil {
+					continue
+				}
+				armed := c.Armed(sc)
+				info := sc.Pkg.TypesInfo
+				cnt := 0
+				seenLit := map[*ast.FuncLit]bool{}
+				for _, s := range sc.SubSites {
+					if s.Observer == nil || s.Observer.Kind != model.AVObserver {
+						continue
+					}
+					for k := 0; k < 3; k++ {
+						sl := s.Observer.Slots[k]
+						if sl == nil || sl.Lit == nil || seenLit[sl.Lit] {
+							continue
+						}
+						seenLit[sl.Lit] = true
+						c.Inc("slot_literals", 1)
+						ast.Inspect(sl.Lit.Body, func(x ast.Node) bool {
+							call, ok := x.(*ast.CallExpr)
+							if !ok {
+								return true
+							}
+							// a new upstream subscription is subscribed with the subscriber context by definition
+							if name, isObs := m.Obj.ObservableMethods[model.Callee(info, call)]; isObs && (name == "SubscribeWithContext" || name == "ConnectWithContext") {
+								return true
+							}
+							for _, a := range call.Args {
+								if t := info.TypeOf(a); t == nil || !model.IsContext(t) {
+									continue
+								}
+								if reachesOnlySubscriberCtx(m, sc.Pkg, a, call, sc.Ctx0) {
+									cnt++
+									key := fmt.Sprintf("%s/%s/ctx-argument#%d", sc, model.SlotNames[k], cnt)
+									c.Report(armed, key, a.Pos(), "the %s callback passes the subscription-time context %s on as a context argument instead of (a context derived from) the one it received: what was attached upstream per notification is not visible to the callee", model.SlotNames[k], sc.Ctx0.Name())
+								}
+							}
+							return true
+						})
+					}
+				}
+				if cnt == 0 && armed && len(seenLit) > 0 {
+					c.OK(sc.String()+"/slot-ctx-arguments", sc.Lit.Pos(), "no callback of an upstream observer passes the subscription-time context on")
+				}
+			}
+		},
+	}
+}
+
+// CALLBACK-CTX-USED: a context returned by a context-aware user callback is the one to pass on.
+func ruleCallbackCtxUsed() check.Rule {
+	return check.Rule{
+		Name: "CALLBACK-CTX-USED",
+		Doc:  "where a user callback called in an upstream observer's slot returns a context that is bound to a variable, every notification sent to the destination from that slot at a point all of whose paths pass that binding carries that variable (or a context derived from it), not the context the slot received: a context-aware predicate / projection may attach values for downstream",
+		Run: func(c *check.Ctx) {
+			m := c.M
+			n := 0
+			for _, sc := range m.SCs {
+				armed := c.Armed(sc)
+				info := sc.Pkg.TypesInfo
+				for _, u := range sc.UserCalls {
+					if u.Ctx == nil || u.Ctx.Kind != model.KSrc || u.Call == nil {
+						continue
+					}
+					as, ok := m.Parent(u.Pkg, u.Call).(*ast.AssignStmt)
+					if !ok || len(as.Rhs) != 1 || len(as.Lhs) < 1 {
+						continue
+					}
+					id, ok := as.Lhs[0].(*ast.Ident)
+					if !ok || id.Name == "_" {
+						continue
+					}
+					v, ok := objOf(u.Pkg.TypesInfo, id).(*types.Var)
+					if !ok || !model.IsContext(v.Type()) {
+						continue
+					}
+					fn := innermostFunc(m, u.Pkg, u.Call)
+					body := funcBody(fn)
+					if body == nil {
+						continue
+					}
+					for _, e := range sc.Emits {
+						if !e.ToDest || e.Forwarder || e.CtxArg == nil || e.Ctx != u.Ctx || e.Slot != u.Slot || innermostFunc(m, e.Pkg, e.Node) != fn || e.Pos < as.Pos() {
+							continue
+						}
+						if !pathsPassBefore(body, e.Node, func(nd ast.Node) bool { return nd.Pos() <= as.Pos() && as.End() <= nd.End() }) {
+							continue
+						}
+						n++
+						key := e.Key + "/uses-callback-ctx"
+						root := ast.Unparen(e.CtxArg)
+						for depth := 0; depth < 6; depth++ {
+							call, isCall := root.(*ast.CallExpr)
+							if !isCall {
+								break
+							}
+							cl := model.Callee(info, call)
+							if cl == nil || cl.Pkg() == nil || cl.Pkg().Path() != "context" || !strings.HasPrefix(cl.Name(), "With") || len(call.Args) == 0 {
+								break
+							}
+							root = ast.Unparen(call.Args[0])
+						}
+						rid, isID := root.(*ast.Ident)
+						if isID && objOf(e.Pkg.TypesInfo, rid) == types.Object(v) {
+							if armed {
+								c.OK(key, e.Pos, "carries the context returned by %s", u.Param.Name())
+							}
+						} else {
+							c.Report(armed, key, e.Pos, "the %s notification that follows the call of %s carries %s instead of the context that callback returned (%s): values the callback attached are lost", model.SlotNames[e.Kind], u.Param.Name(), types.ExprString(e.CtxArg), v.Name())
+						}
+					}
+				}
+			}
+			c.Inc("callback_ctx_emissions", n)
+		},
+	}
 }
 
 // inSourceSlot: the nearest enclosing non-body context is a source slot.
